@@ -582,6 +582,9 @@ Definition mbr_tuple : Type :=
 Definition mbr_of_tuple (t : mbr_tuple) : option (isohybrid * Z) :=
   let '(efi, mac, part_entry, mbr_id, part_offset, gsect, gheads, ptype, rba_extent,
         efi_lba, efi_count, mac_lba, mac_count, mbr_code, iso_size) := t in
+  (* d0ed30b: IsoHybrid.new refuses entry 2 with efi and entry 3 with mac (no active partition would be left);
+     ih_new is the constructor without that guard, HybridHist.hstep_add_hybrid_gen carries the same guard *)
+  if (zbool efi && (part_entry =? 2)) || (zbool mac && (part_entry =? 3)) then None else
   match ih_new (zbool efi) (zbool mac) part_entry mbr_id part_offset gsect gheads ptype with
   | None => None
   | Some h => Some (ih_set_mac (ih_set_efi (ih_update_rba h rba_extent) efi_lba efi_count)
